@@ -4,12 +4,13 @@ import vlib
 import c03_lib as L
 import c03_struct as S
 import c03_model as M
+import c03_cache as CK
 from vlib import Corr, Search, Failure
 
 ID = 'C03'
 LEVEL = 'proof'
 PROPS = ['Props/C03.v', 'Findings/C03.v']
-GEN = []
+GEN = [('Gen/C03CacheKey.v', CK.generate)]      # Tie A: does get_codeobject_id pin the code objects (read from /repo on every run)
 
 # ------------------------------------------------------------------------------------------------ Coq batches
 
@@ -301,9 +302,24 @@ def search_struct(ctx, deep, dist):
     return len(texts), failures, nontriv
 
 
+CACHE_KEY = 'cache:stale-tree-after-address-reuse'
+
+
+def cache_failure(fail):
+    what = ('decompile() of a freshly built, short-lived code object `%s` (object no. %d of a sequence, each dropped before the next is built) '
+            'returned the tree of %s' % (fail['text'], fail['index'],
+                                         'the earlier object no. %s' % fail['stale_from'] if fail.get('stale_from') is not None else 'another expression: %s' % fail['got'][:120]))
+    return Failure(CACHE_KEY, what, {'kind': 'cache', 'n': fail['index'] + 1})
+
+
 def search(ctx, deep):
     t0 = time.time()
     dist = {}
+    # (0) the tree cache: many short-lived code objects in sequence, each compared with its own source
+    n_sweep = 30000 if (deep or ctx.thorough) else 4000
+    n_done, n_trees, cfail, cstats = CK.sweep(n_sweep)
+    dist['cache_sweep'] = dict(cstats, objects=n_done, trees=n_trees)
+    cache_failures = [cache_failure(cfail)] if cfail else []
     cases = []
     for d in load_corpus():
         if d.get('kind') == 'struct': continue
@@ -354,6 +370,8 @@ def search(ctx, deep):
     dist['pairs_checked_in_coq'] = npairs
     n_struct, struct_failures, struct_nontriv = search_struct(ctx, deep, dist)
     failures += struct_failures
+    failures += cache_failures
+    n_struct += n_done
     dist['seconds'] = round(time.time() - t0, 1)
     samples = [{'position': c['kind'], 'source': L.source_text(c['e'], c['kind'], atom_fn(c.get('atoms'))),
                 'decompiled': L.src(r[1], 0, atom_fn(c.get('atoms'))) if r[0] in ('ok', 'wrong') else r[1], 'verdict': r[0]}
@@ -365,6 +383,9 @@ def search(ctx, deep):
 
 def replay(ctx, data):
     kind = data['kind']
+    if kind == 'cache':
+        n_done, n_trees, cfail, cstats = CK.sweep(int(data['n']))
+        return cache_failure(cfail) if cfail else None
     if kind == 'struct':
         k = ('struct', data['text'], None)
         if k in _verdicts: return _verdicts[k]
@@ -491,6 +512,22 @@ def correspondence(ctx):
             which = [nm for nm, fl in zip(names, flags) if fl != 'true'] or ['compile_domain']
             disagreements.append({'what': 'model and implementation differ at: %s' % ', '.join(which), 'input': L.source_text(e, kind),
                                   'impl': {'instructions': M.coq_code(o['code']), 'or_jumps': o['orj'], 'conditions_end': o['ce'], 'result': o['result']}})
+    # (3) the cache-key model: what the scanner read from the source against what a run shows
+    try:
+        sc = CK.scan()
+        n_done, n_trees, cfail, cstats = CK.sweep(600, start=10 ** 6)
+        dist['cache_key'] = dict(cstats, pins_codeobjects=sc['pins'], registry=sc['registry'])
+        observed_injective = cstats['addresses_reused'] == 0
+        if sc['pins'] and not observed_injective:
+            disagreements.append({'what': 'Gen/C03CacheKey.v says get_codeobject_id pins the code objects, but addresses were reused during a run', 'input': cstats})
+        if sc['pins']:
+            import pony.utils.utils as PU
+            reg = getattr(PU, sc['registry'], None)
+            if not isinstance(reg, dict) or len(reg) < cstats['distinct_addresses']:
+                disagreements.append({'what': 'the registry dict named by the scanner does not hold the code objects seen by decompile()', 'input': sc})
+        n_ref += 1
+    except vlib.TranslateError as e:
+        disagreements.append({'what': 'cache-key scanner refused: %s' % e, 'input': 'pony/utils/utils.py'})
     dist['seconds_model_ties'] = round(time.time() - t1, 1)
     dist['seconds'] = round(time.time() - t0, 1)
     samples = [{'coq_case': exprs[0][:400]}] if exprs else []
